@@ -441,14 +441,14 @@ def run(tape, prop, tier):
                     x.surplus = b''         # (under this option whatever comes before the close IS the body)
                     x.desc['surplus'] = 0
             last = script[-1]
-            if last.framing == 'length' and last.coding not in ('identity', 'gzip-identity') and len(last.coded) > 12 and not last.surplus and tape.chance(2, 3, 'c19.cut'):
+            if last.framing == 'length' and last.coding not in ('identity', 'gzip-identity') and not last.desc.get('trailing_after_coded_stream') and len(last.coded) > 12 and not last.surplus and tape.chance(2, 3, 'c19.cut'):
                 last.truncate_at = len(last.head) + 1 + tape.draw(len(last.body_wire) - 2, 'c19.cut.at')
                 last.truncate_kind = tape.choice(('rst', 'fin'), 'c19.cut.kind')
                 last.desc.update(truncate_at=last.truncate_at, truncate_kind=last.truncate_kind)
                 r.probes['coded_body_cut_by_peer'] += 1
                 r.faults['truncate.' + last.truncate_kind] += 1
         if faults_on:
-            cands = [x for x in script if x.coding not in ('identity', 'gzip-identity')]
+            cands = [x for x in script if x.coding not in ('identity', 'gzip-identity') and not x.desc.get('trailing_after_coded_stream')]
             if cands and damage_coded(tape, cands[tape.draw(len(cands), 'damage.which')]):
                 r.faults['coded_' + cands[0].desc.get('damage', 'damaged')] += 1
         r.sub = 'damaged' if faults_on else 'fault-free'
